@@ -27,6 +27,11 @@
 (* variant whose failure exit forgets the data socket (must be rejected: a failure at the  *)
 (* LAST step - runtime info cut on the control connection of a REAL server, "rinfo*" -     *)
 (* then leaves the persistent backend behind).                                             *)
+(* LateErrReset = TRUE: _start clears the error slot AFTER it has started the frontend       *)
+(* thread (the code clears it before): a handshake that fails at once is then forgotten and   *)
+(* the constructor RETURNS a worker for which no child was ever started (must be rejected by  *)
+(* C20_Usable; the replay forces the interleaving by holding the constructing thread right    *)
+(* after Thread.start() until the frontend thread has finished).                              *)
 (* "kill_info": the server is killed exactly when it is about to forward the runtime info   *)
 (* on the control connection.  The code sends the go-ahead to the backend AFTER that frame;  *)
 (* GoFirst = TRUE sends it before (must be rejected: the backend then runs its target and    *)
@@ -42,7 +47,7 @@
 (* keeps the client's sockets open - the constructor never returns).                       *)
 EXTENDS Naturals, Sequences, FiniteSets, TLC, ClientStartProps
 
-CONSTANTS Fix, Scenarios, LateClose, LeakData, GoFirst
+CONSTANTS Fix, Scenarios, LateClose, LeakData, GoFirst, LateErrReset
 
 VARIABLES scn,      \* [kind, step, how, pers ("F" one-shot | "T" persistent | "L" one-shot, never-ending target)]
           dsock,    \* the client's data socket: "none" "open" "closed"
@@ -83,7 +88,7 @@ Init == /\ scn \in Scenarios
 PStep ==
   /\ CASE ppc = "connect" -> /\ ppc' = (IF St = "refuse_data" THEN "raised" ELSE "startF")                  \* connect() raises
                              /\ dsock' = (IF St = "refuse_data" THEN "closed" ELSE "open") /\ UNCHANGED <<fpc, regd>>
-       [] ppc = "startF" -> ppc' = "wait" /\ fpc' = "hdr" /\ UNCHANGED <<dsock, regd>>
+       [] ppc = "startF" -> ppc' = (IF LateErrReset THEN "reset" ELSE "wait") /\ fpc' = "hdr" /\ UNCHANGED <<dsock, regd>>
        [] ppc = "wait" -> /\ evt                         \* _startup_sync.wait(): no timeout
                           /\ ppc' = (IF err THEN "raised" ELSE "returned") /\ UNCHANGED fpc
                           /\ dsock' = (IF err /\ ~LeakData THEN "closed" ELSE dsock)     \* remote.py: `self._socket.close()` before re-raising
@@ -96,6 +101,11 @@ PStep ==
        [] OTHER -> FALSE
   /\ ch' = IF ppc = "spawn" THEN "starting" ELSE ch
   /\ UNCHANGED <<scn, evt, err, sv, sent, dconn, addr, ctrl, info, gotInfo, bk, bkp, go>>
+
+PReset ==                                  \* (only with LateErrReset) `self._startup_error = None` after the thread has been started
+  /\ ppc = "reset"
+  /\ ppc' = "wait" /\ err' = FALSE
+  /\ UNCHANGED <<scn, regd, dsock, fpc, evt, sv, sent, dconn, addr, ctrl, info, gotInfo, bk, bkp, go, ch>>
 
 (* ---- the frontend thread ---- *)
 Fail == IF "report" \in Fix THEN fpc' = "dead" /\ err' = TRUE /\ evt' = TRUE
@@ -184,8 +194,8 @@ CStep == /\ scn.kind = "process" /\ ch = "starting"
          /\ ch' = IF St = "exit_early" THEN "exited" ELSE "reported"
          /\ UNCHANGED <<scn, regd, dsock, ppc, fpc, evt, err, sv, sent, dconn, addr, ctrl, info, gotInfo, bk, bkp, go>>
 
-Next == PStep \/ FStep \/ SStep \/ BStep \/ SockEOF \/ CStep
-Spec == Init /\ [][Next]_vars /\ WF_vars(PStep) /\ WF_vars(FStep) /\ WF_vars(SStep) /\ WF_vars(BStep) /\ WF_vars(SockEOF) /\ WF_vars(CStep)
+Next == PStep \/ PReset \/ FStep \/ SStep \/ BStep \/ SockEOF \/ CStep
+Spec == Init /\ [][Next]_vars /\ WF_vars(PStep) /\ WF_vars(PReset) /\ WF_vars(FStep) /\ WF_vars(SStep) /\ WF_vars(BStep) /\ WF_vars(SockEOF) /\ WF_vars(CStep)
 
 Done == ppc \in {"returned", "raised"}
 Orphaned == (SrvDead \/ (IsRInfo /\ ppc = "raised")) /\ bk \in {"boot", "main", "waitgo", "run", "mute"}
